@@ -84,6 +84,7 @@ structure St where
   sfx : Nat := 0
   bodies : List Body := []
   full : Bool := false      -- <root>/full marker younger than an hour: IsFull()
+  serialize : Bool := false -- DriverParameters.Serialize: v.lock(ctx) can give up when ctx is done
 
 def St.note (st : St) (b : Body) : St :=
   if st.bodies.any (fun x => x.spec == b.spec) then st else { st with bodies := st.bodies ++ [b] }
@@ -214,16 +215,29 @@ def stepOp (st : St) (op : String) (last : Bool) : Option (List (St × Option St
         let lastPt := pts.getLast?.getD ""
         if lastPt.startsWith "stat:" || lastPt.startsWith "getFunc:" then
           -- the context ends during Compare: nothing is touched or written, 503
-          some [out (mk [] true true) false]
+          let r := mk [] true true
+          -- Serialize: getFunc's v.lock(ctx) may give up (ctx done) or win the race for the free lock
+          if st.serialize && lastPt.startsWith "stat:" && r.1.length > 1 then
+            some [out r false, out (r.1.take 1, r.2) false]
+          else some [out r false]
         else if lastPt.startsWith "Touch:" then some [out full false]
         else
-          let beforeCopyEnd := (pts.filter (fun p => p.startsWith "WriteBlock:")).length ≤ 3
+          let nwb := (pts.filter (fun p => p.startsWith "WriteBlock:")).length
+          let beforeCopyEnd := nwb ≤ 3
           let eofRun := mk [wbIn st b chunks .eof .none] true false
           let errRun := mk [wbIn st b [] .err .none] true false
+          -- Serialize: cancelled before WriteBlock's v.lock(ctx) (at MkdirAll or TempFile): the lock may
+          -- give up, WriteBlock then returns at once and leaves its (empty) temp file behind — a
+          -- prefix of the step list
+          let lockFail : List (St × Option String) :=
+            if st.serialize && nwb ≤ 2 then
+              let cmpLen := (compareEvs st.fs b.h).length
+              [out (errRun.1.take (cmpLen + 2), errRun.2) false]
+            else []
           if !beforeCopyEnd then some [out eofRun false]
-          else if !b.data.isEmpty then some [out errRun false]
-          else if last then some [out eofRun false, out errRun false]
-          else some [out eofRun false]
+          else if !b.data.isEmpty then some ([out errRun false] ++ lockFail)
+          else if last then some ([out eofRun false, out errRun false] ++ lockFail)
+          else some ([out eofRun false] ++ lockFail)
     | .fault i kk =>
       -- which call does the i-th point of the undisturbed run precede?
       let (pos, pts) := killPrefix full.1 i
@@ -267,6 +281,8 @@ def stepOp (st : St) (op : String) (last : Bool) : Option (List (St × Option St
       let (st2, killed, pts) := execMode st1 full.1 m
       some [(st2, seg st2 (if killed then "killed" else code full.2) pts)]
   | ["put2", bs, cs, jas, jbs, endS] => do
+    -- (with Serialize the second writer waits for the volume lock: no overlap, not generated)
+    if st.serialize then none
     -- two overlapping PUTs of the same block: A held after ja chunks, B started and held after jb
     -- chunks, A runs to its end, then B is cancelled / finishes / the process is killed
     let b ← parseBody bs
@@ -373,7 +389,7 @@ def stepOp (st : St) (op : String) (last : Bool) : Option (List (St × Option St
     some [(st2, seg st2 (if killed then "killed" else "done") pts)]
   | _ => none
 
-def runHist (ops : List String) : Option (List String) :=
+def runHist (ops : List String) (serialize : Bool := false) : Option (List String) :=
   let rec go (ops : List String) (st : St) (acc : List String) : Option (List String) :=
     match ops with
     | [] =>
@@ -386,7 +402,7 @@ def runHist (ops : List String) : Option (List String) :=
           match r, go rest st2 (match out with | some s => s :: acc | none => acc) with
           | some a, some b => some (a ++ b)
           | _, _ => none) (some [])
-  go ops {} []
+  go ops { serialize := serialize } []
 
 /-- every point the instrumenter is expected to create, in source order of unix_volume.go -/
 def allPointIds : List String :=
@@ -398,6 +414,10 @@ def step (line : String) : String :=
   | ["points", ids] => if ids.splitOn "," == allPointIds then "points-ok" else "points-differ"
   | ["hist", ops] =>
     match runHist (ops.splitOn ";") with
+    | some outs => " || ".intercalate outs
+    | none => "bad-op"
+  | ["hists", ops] =>
+    match runHist (ops.splitOn ";") true with
     | some outs => " || ".intercalate outs
     | none => "bad-op"
   | _ => "bad-op"
